@@ -122,7 +122,10 @@ pub fn write_evidence(opts: &Opts, start: Instant, e: Evidence) {
         "wall_s": (wall * 1000.0).round() / 1000.0,
         "violations": e.violations,
     });
-    let dir = verif_dir().join("evidence");
+    let dir = match std::env::var("VERIF_EVIDENCE_DIR") {
+        Ok(d) => std::path::PathBuf::from(d),
+        Err(_) => verif_dir().join("evidence"),
+    };
     let _ = std::fs::create_dir_all(&dir);
     let path = dir.join(format!("{}.json", e.property));
     std::fs::write(&path, serde_json::to_string_pretty(&v).unwrap() + "\n").expect("write evidence");
